@@ -1,70 +1,98 @@
 /-
-  C11 — exactly one highest-salience satisfied rule fires per cycle.
-  Decision logic of the salience scan (`pickRunner`, engine/GruleEngine.go) stated outright, for all
-  integer saliences and every iteration order; trace-level statements are in `Proofs/Trace.lean`
-  and re-exported here.
+  C11 — FetchMatchingRules returns exactly the satisfied rules, ordered by salience.
 -/
-import GruleModel.Engine
+import GruleModel.Proofs.Fetch
+import GruleModel.Proofs.Side
 namespace Grule.C11
+open Grule
 
-/-- the runner is one of the candidates -/
-theorem C11_runner_is_candidate (r : RuleEntry) (rs : List RuleEntry) : pickRunner r rs ∈ r :: rs := by
-  induction rs generalizing r with
-  | nil => simp [pickRunner]
-  | cons p rest ih =>
-    unfold pickRunner
-    split
-    · have := ih p
-      simp only [List.mem_cons] at this ⊢
-      rcases this with h | h
-      · right; left; exact h
-      · right; right; exact h
-    · have := ih r
-      simp only [List.mem_cons] at this ⊢
-      rcases this with h | h
-      · left; exact h
-      · right; right; exact h
+/-- the facts as FetchMatchingRules sees them: nothing retracted (the call un-retracts first) -/
+def fetchVis (st : Store) : Vis := { st := st, retracted := [] }
 
-/-- auxiliary: the scan never lowers the salience it holds -/
-theorem pickRunner_ge_start (r : RuleEntry) (rs : List RuleEntry) :
-    r.rule.salience ≤ (pickRunner r rs).rule.salience := by
-  induction rs generalizing r with
-  | nil => simp [pickRunner]
-  | cons p rest ih =>
-    unfold pickRunner
-    split
-    · rename_i h; exact Int.le_trans (Int.le_of_lt h) (ih p)
-    · exact ih r
+/-- **C11 (engine with working memory).** When the call succeeds, the returned list contains exactly the
+    non-removed entries whose condition holds from scratch on the given facts; it is sorted by
+    non-increasing salience; it is a permutation of the matching entries in visiting order (so each rule
+    appears exactly as often as it is in the knowledge base: once); the facts are untouched. -/
+theorem C11_exact {c : Cfg} (retErr : Bool) (o : Option (List String)) (inst : Instance) (st : Store)
+    (hp : MethodsPure c) (hi : SnapInj) (hw : WFEntries inst.entries) (hk : KeysNodup inst.entries)
+    (hok : (fetch retErr o c inst st).outcome = .ok) :
+    (∀ x, x ∈ (fetch retErr o c inst st).rules ↔
+        (x ∈ inst.entries ∧ x.deleted = false ∧ holds c st x.rule = true)) ∧
+    SortedDesc (fetch retErr o c inst st).rules ∧
+    (fetch retErr o c inst st).store = st := by
+  unfold fetch at hok ⊢
+  dsimp only at hok ⊢
+  have hcoh : Coh c (resetAll { st := st, memoE := inst.memoE, memoA := inst.memoA, retracted := [] }) :=
+    coh_empty _ rfl rfl
+  have hwo : WFEntries (orderEntries o inst.entries) := fun x hx => hw x (orderEntries_mem _ _ x hx)
+  obtain ⟨h1, h2, _, h4⟩ := fetchPass_sound hp hi retErr (orderEntries o inst.entries) _ [] hwo hcoh
+  have hvis : (resetAll { st := st, memoE := inst.memoE, memoA := inst.memoA, retracted := [] }).vis = fetchVis st := rfl
+  rw [hvis] at h1 h2 h4
+  generalize fetchPass retErr c (orderEntries o inst.entries)
+    (resetAll { st := st, memoE := inst.memoE, memoA := inst.memoA, retracted := [] }) [] = fp at hok h1 h2 h4 ⊢
+  obtain ⟨out, es, acc⟩ := fp
+  simp only at h1 h2 h4 hok ⊢
+  cases out with
+  | some oo =>
+    simp only at hok
+    -- an error outcome is never `ok`
+    have := h1
+    cases oo <;> first | cases hok | skip
+    -- `some .ok` is impossible for the reference pass, but we do not need it: the statement is about `ok` outcomes only
+    exact absurd h1 (by
+      intro hh
+      have hne : ∀ (es' acc' : List RuleEntry), (specFetchPass retErr c (fetchVis st) es' acc').1 ≠ some .ok := by
+        intro es'
+        induction es' with
+        | nil => intro acc'; simp [specFetchPass]
+        | cons e rest ih =>
+          intro acc'
+          simp only [specFetchPass]
+          split
+          · exact ih _
+          · split
+            · intro h; cases h
+            · split
+              · intro h; cases h
+              · exact ih _
+            · exact ih _
+      exact hne _ _ hh.symm)
+  | none =>
+    simp only at hok ⊢
+    have hmem := specFetchPass_mem (c := c) retErr (fetchVis st) (orderEntries o inst.entries) [] h1.symm
+    refine ⟨?_, sortStable_sorted acc, ?_⟩
+    · intro x
+      rw [(sortStable_perm acc).mem_iff, h4, hmem x]
+      constructor
+      · rintro (h | ⟨hx1, hx2, hx3⟩)
+        · cases h
+        · refine ⟨orderEntries_mem _ _ x hx1, hx2, ?_⟩
+          have : CandOn c (fetchVis st) x := ⟨rfl, hx2, hx3⟩
+          exact holds_of_cand this
+      · rintro ⟨hx1, hx2, hx3⟩
+        refine Or.inr ⟨orderEntries_complete o inst.entries hk x hx1, hx2, ?_⟩
+        unfold specCond
+        simp only [visRetracted, fetchVis, List.contains_nil, Bool.false_eq_true, if_false]
+        unfold holds at hx3
+        split at hx3
+        · rename_i hb; rw [hb]
+        · cases hx3
+    · have : es.vis = fetchVis st := h2
+      show es.st = st
+      have h5 : es.vis.st = (fetchVis st).st := by rw [this]
+      exact h5
 
-/-- the runner's salience is maximal among all candidates of the cycle (any `Int`, hence the whole
-    int32 range, negative and equal values included) -/
-theorem C11_max_salience (r : RuleEntry) (rs : List RuleEntry) :
-    ∀ p ∈ r :: rs, p.rule.salience ≤ (pickRunner r rs).rule.salience := by
-  induction rs generalizing r with
-  | nil => intro p hp; simp at hp; subst hp; simp [pickRunner]
-  | cons q rest ih =>
-    intro p hp
-    unfold pickRunner
-    split
-    · rename_i h
-      simp only [List.mem_cons] at hp
-      rcases hp with hp | hp | hp
-      · subst hp; exact Int.le_trans (Int.le_of_lt h) (pickRunner_ge_start q rest)
-      · subst hp; exact pickRunner_ge_start p rest
-      · exact ih q p (by simp [hp])
-    · rename_i h
-      simp only [List.mem_cons] at hp
-      rcases hp with hp | hp | hp
-      · subst hp; exact pickRunner_ge_start p rest
-      · subst hp; exact Int.le_trans (Int.not_lt.mp h) (pickRunner_ge_start r rest)
-      · exact ih r p (by simp [hp])
-
-/-- non-vacuity: three candidates with saliences 0, 5, 5 — the first maximal one (B) runs -/
-example :
-    let mk := fun (n : String) (s : Int) => ({ key := n, rule := { name := n, desc := "", salience := s, cond := default, acts := [] } } : RuleEntry)
-    (pickRunner (mk "A" 0) [mk "B" 5, mk "C" 5]).key = "B" := by decide
+/-- error mode: with ReturnErrOnFailedRuleEvaluation the first failing condition in visiting order is
+    returned as an error naming the rule; without it the rule is skipped (reference pass, by definition) -/
+theorem C11_error_mode (c : Cfg) (v : Vis) (e : RuleEntry) (rest acc : List RuleEntry)
+    (hd : e.deleted = false) (hf : specCond c v e = .failed) :
+    specFetchPass true c v (e :: rest) acc = (some (.evalErr e.rule.name false), acc) ∧
+    specFetchPass false c v (e :: rest) acc = specFetchPass false c v rest acc := by
+  simp [specFetchPass, hd, hf]
 
 end Grule.C11
 
-#print axioms Grule.C11.C11_runner_is_candidate
-#print axioms Grule.C11.C11_max_salience
+#print axioms Grule.C11.C11_exact
+#print axioms Grule.C11.C11_error_mode
+#print axioms Grule.sortStable_sorted
+#print axioms Grule.sortStable_perm
